@@ -125,55 +125,89 @@ theorem bitsByteCount_le (n : Int) (h0 : 0 ≤ n) (h : n ≤ 64) : bitsByteCount
 theorem bitsByteCount_nonneg (n : Int) (h0 : 0 ≤ n) : 0 ≤ bitsByteCount n := by
   unfold bitsByteCount; split <;> omega
 
-theorem tryUintBits_nofault (s : St) (n : Int) (w : String) : tryUintBits s n ≠ .fault w := by
+theorem bitsByteCount_bound (x : Int) (h0 : 0 ≤ x) : 0 ≤ bitsByteCount x ∧ bitsByteCount x ≤ x / 8 + 1 := by
+  unfold bitsByteCount; split <;> omega
+
+theorem makesliceFault_true (x : Int) : makesliceFault x = true ↔ (x < 0 ∨ x > 281474976710656) := by
+  simp [makesliceFault, maxAlloc]
+
+theorem makesliceFault_false (x : Int) : makesliceFault x = false ↔ (0 ≤ x ∧ x ≤ 281474976710656) := by
+  simp [makesliceFault, maxAlloc]
+
+/-- TryBits never faults: its buffer is clamped to what the (sane) input buffer still holds -/
+theorem tryBits_nofault (s : St) (n : Int) (w : String) (hp : 0 ≤ s.pos) (hl : s.len ≤ maxAlloc) :
+    tryBits s n ≠ .fault w := by
+  unfold tryBits
+  split
+  · simp
+  · have hb := bitsByteCount_bound (max s.left 0) (by omega)
+    have hm : makesliceFault (min (bitsByteCount n) (bitsByteCount (max s.left 0) + 8)) = true →
+        min (bitsByteCount n) (bitsByteCount (max s.left 0) + 8) ≤ 0 := by
+      rw [makesliceFault_true]
+      simp only [maxAlloc, St.left] at *
+      omega
+    simp only []
+    split
+    · rename_i h; have := hm h.2; omega
+    · split <;> simp
+
+theorem tryUintBits_nofault (s : St) (n : Int) (w : String) (hp : 0 ≤ s.pos) (hl : s.len ≤ maxAlloc) :
+    tryUintBits s n ≠ .fault w := by
   unfold tryUintBits
   split
   · simp
-  · rename_i h
-    have h0 : 0 ≤ n := by omega
-    have h64 : n ≤ 64 := by omega
-    have hb := bitsByteCount_le n h0 h64
-    have hb0 := bitsByteCount_nonneg n h0
-    unfold tryBits
-    have hm : makesliceFault (bitsByteCount n) = false := by
-      simp [makesliceFault, maxAlloc]; omega
+  · exact tryBits_nofault _ _ _ hp hl
+
+theorem tryU_nofault (s : St) (n : Int) (w : String) (hp : 0 ≤ s.pos) (hl : s.len ≤ maxAlloc) :
+    tryU s n ≠ .fault w := by
+  unfold tryU; split
+  · simp
+  · exact tryUintBits_nofault _ _ _ hp hl
+
+/-- TryBytesLen never faults: negative / overflowing requests are errors, the allocation is clamped -/
+theorem tryBytesLen_nofault (s : St) (n : Int) (w : String) (hp : 0 ≤ s.pos) (hl : s.len ≤ maxAlloc) :
+    tryBytesLen s n ≠ .fault w := by
+  unfold tryBytesLen
+  split
+  · simp
+  · rename_i h0
+    have hb := bitsByteCount_bound (max s.left 0) (by omega)
+    have hm : makesliceFault (min n (bitsByteCount (max s.left 0) + 8)) = false := by
+      rw [makesliceFault_false]
+      simp only [maxAlloc, St.left] at *
+      omega
+    simp only [hm]
     repeat' split
     all_goals simp_all
 
-theorem tryU_nofault (s : St) (n : Int) (w : String) : tryU s n ≠ .fault w := by
-  unfold tryU; split
-  · simp
-  · exact tryUintBits_nofault _ _ _
-
-/-- tryText allocates only what the buffer still holds -/
-theorem tryText_nofault (s : St) (n : Int) (w : String) (hs : s.left ≤ 8 * maxAlloc) :
+theorem tryText_nofault (s : St) (n : Int) (w : String) (hp : 0 ≤ s.pos) (hl : s.len ≤ maxAlloc) :
     tryText s n ≠ .fault w := by
   unfold tryText
   split
   · simp
   · split
     · simp
+    · exact tryBytesLen_nofault _ _ _ hp hl
+
+/-- TryBytesRange never faults: more than the whole buffer (+8) is refused before allocating -/
+theorem tryBytesRange_nofault (s : St) (o n : Int) (w : String) (hl : s.len ≤ maxAlloc) :
+    tryBytesRange s o n ≠ .fault w := by
+  unfold tryBytesRange
+  split
+  · simp
+  · split
+    · simp
     · rename_i h0 h1
       have hm : makesliceFault n = false := by
-        simp [makesliceFault, maxAlloc] at hs ⊢; omega
-      unfold tryBytesLen
+        rw [makesliceFault_false]
+        simp only [maxAlloc] at *
+        omega
       simp only [hm]
       repeat' split
       all_goals simp_all
 
-theorem tryBytesLen_nofault (s : St) (n : Int) (w : String) (hm : makesliceFault n = false) :
-    tryBytesLen s n ≠ .fault w := by
-  unfold tryBytesLen
-  simp only [hm]
-  repeat' split
-  all_goals simp_all
-
-theorem tryBytesRange_nofault (s : St) (o n : Int) (w : String) (hm : makesliceFault n = false) :
-    tryBytesRange s o n ≠ .fault w := by
-  unfold tryBytesRange
-  simp only [hm]
-  repeat' split
-  all_goals simp_all
+theorem tryAlignBits_nofault (s : St) (n : Int) (w : String) : tryAlignBits s n ≠ .fault w := by
+  unfold tryAlignBits; split <;> simp
 
 theorem rangeFn_onlyRec (s : St) (f n : Int) : OnlyRec (rangeFn s f n) := by
   intro v hv
